@@ -499,7 +499,7 @@ func interpret(be backend, data []byte) *displayList {
 	case "pdf":
 		return interpretPDF(data)
 	}
-	dl, _ := interpretPS(data, true)
+	dl, _, _ := interpretPS(data)
 	return dl
 }
 
